@@ -6,7 +6,30 @@ sample names come from an external header (`hdr`), whether a stop/resume may hap
 (a shard; None = symbolic 2..4).  SYMBOLIC in every condition: gvcf_batch_size (1..3), each VDS's n_samples
 (1..smax), branch_factor (2..4, unless sharded) and one bool per possible step (N+M of them; "stop before
 step i, save the plan, resume from it") when `resume` is set.
+
+Fault family (`fault` set in the config): the REAL run() with one injected engine fault, then the real
+load_combiner(save_path).run().  SYMBOLIC: branch_factor, gvcf_batch_size, each n_samples (1..smax, small: run()
+serialises the plan before the first step), the index `fi` of the failing engine call (0..FI_MAX; an index past the
+last call = no fault) and the fault kind `kind` (False OSError, True a BaseException).
 """
+FI_MAX = 999
+FAULT_TEMPLATE = '''
+def fault{ID}({SIG}) -> bool:
+    """
+    pre: {PRE}
+    post: _
+    """
+    return fault_property_holds({N}, [{SIZES}], {BF}, bs, fi, kind, {HDR}, {SMAX})
+
+
+def reachfault{ID}({SIG}) -> bool:
+    """
+    pre: {PRE}
+    post: _
+    """
+    # reachability twin: must be REFUTED (a fault fires inside a step and the resumed run steps on and completes)
+    return fault_unreached({N}, [{SIZES}], {BF}, bs, fi, kind, {HDR}, {SMAX})
+'''
 TEMPLATE = '''
 def check{ID}({SIG}) -> bool:
     """
@@ -27,8 +50,13 @@ def reach{ID}({SIG}) -> bool:
 
 
 def cid(c):
-    return (f"g{c['N']}v{c['M']}" + ('h' if c['hdr'] else 'n') + ('r' if c['resume'] else 's')
-            + (f"b{c['bf']}" if c.get('bf') else '') + f"m{c['smax']}")
+    return (f"g{c['N']}v{c['M']}" + ('h' if c['hdr'] else 'n') + ('f' if c.get('fault') else 'r' if c['resume'] else 's')
+            + (f"b{c['bf']}" if c.get('bf') else '') + f"m{c['smax']}" + (f"q{c['bsmax']}" if c.get('bsmax', 3) != 3 else ''))
+
+
+def targets(c):
+    """(check function name, twin function name) of a config."""
+    return (f'fault{cid(c)}', f'reachfault{cid(c)}') if c.get('fault') else (f'check{cid(c)}', f'reach{cid(c)}')
 
 
 def min_steps(c):
@@ -42,20 +70,33 @@ def min_steps(c):
 
 
 def describe(c):
+    if c.get('fault'):
+        return (f"{c['N']} gvcfs + {c['M']} vdses, {'external header' if c['hdr'] else 'header from files'}, "
+                f"real run() with one engine fault at any call (OSError or BaseException) then load_combiner().run(), "
+                f"branch_factor {c.get('bf') or '2..4'}, batch 1..{c.get('bsmax', 3)}, n_samples 1..{c['smax']}")
     return (f"{c['N']} gvcfs + {c['M']} vdses, {'external header' if c['hdr'] else 'header from files'}, "
             f"{'stop/resume before any step' if c['resume'] else 'no resume'}, "
-            f"branch_factor {c.get('bf') or '2..4'}, batch 1..3, n_samples 1..{c['smax']}")
+            f"branch_factor {c.get('bf') or '2..4'}, batch 1..{c.get('bsmax', 3)}, n_samples 1..{c['smax']}")
 
 
 def source(configs):
-    out = ['from harness.C38_plan import property_holds, unreached\n']
+    out = ['from harness.C38_plan import property_holds, unreached, fault_property_holds, fault_unreached\n']
     for c in configs:
         n, m = c['N'], c['M']
         assert n + m >= 1
         sizes = [f's{i}' for i in range(m)]
+        if c.get('fault'):
+            sig = (([] if c.get('bf') else ['bf: int']) + ['bs: int'] + [f'{s}: int' for s in sizes]
+                   + ['fi: int', 'kind: bool'])
+            pre = (([] if c.get('bf') else ['2 <= bf <= 4']) + [f"1 <= bs <= {c.get('bsmax', 3)}"]
+                   + [f"1 <= {s} <= {c['smax']}" for s in sizes] + [f'0 <= fi <= {FI_MAX}'])
+            out.append(FAULT_TEMPLATE.format(ID=cid(c), SIG=', '.join(sig), PRE=' and '.join(pre), N=n,
+                                             SIZES=', '.join(sizes), BF=c.get('bf') or 'bf', HDR=bool(c['hdr']),
+                                             SMAX=max(c['smax'], 1)))
+            continue
         res = [f'r{i}' for i in range(n + m)] if c['resume'] else []
         sig = ([] if c.get('bf') else ['bf: int']) + ['bs: int'] + [f'{s}: int' for s in sizes] + [f'{r}: bool' for r in res]
-        pre = ([] if c.get('bf') else ['2 <= bf <= 4']) + ['1 <= bs <= 3'] + [f"1 <= {s} <= {c['smax']}" for s in sizes]
+        pre = ([] if c.get('bf') else ['2 <= bf <= 4']) + [f"1 <= bs <= {c.get('bsmax', 3)}"] + [f"1 <= {s} <= {c['smax']}" for s in sizes]
         out.append(TEMPLATE.format(ID=cid(c), SIG=', '.join(sig), PRE=' and '.join(pre), N=n, SIZES=', '.join(sizes),
                                    BF=c.get('bf') or 'bf', RES=', '.join(res), HDR=bool(c['hdr']),
                                    T=min_steps(c), L=1 if c['resume'] else 0))
@@ -64,5 +105,7 @@ def source(configs):
 
 def argnames(c):
     n, m = c['N'], c['M']
+    if c.get('fault'):
+        return ([] if c.get('bf') else ['bf']) + ['bs'] + [f's{i}' for i in range(m)] + ['fi', 'kind']
     return (([] if c.get('bf') else ['bf']) + ['bs'] + [f's{i}' for i in range(m)]
             + ([f'r{i}' for i in range(n + m)] if c['resume'] else []))
